@@ -1562,7 +1562,12 @@ class Engine:
                 if isinstance(node.op, ast.Sub):
                     return self.set_difference(sets[0], sets[1], st, node)
                 return self.set_combine(sets[0], sets[1], isinstance(node.op, ast.BitOr), st, node)
-        return self.binop(node.op, self.eval(node.left, st), self.eval(node.right, st), st, node)
+        lv, rv = self.eval(node.left, st), self.eval(node.right, st)
+        if isinstance(node.op, ast.BitOr) and lv.ty is TObj and rv.ty is TObj:
+            # `a | b` on two opaque objects (e.g. the union of two dicts that are only handed on): an uninterpreted
+            # function of the operands, `spec:or`
+            return Val(TObj, z3.Function("spec:or", TObj.sort(), TObj.sort(), TObj.sort())(lv.t, rv.t))
+        return self.binop(node.op, lv, rv, st, node)
 
     def _as_set(self, node: ast.expr, st: State):
         """A set-valued operand: a set variable/expression, or the keys view `d.keys()` of a dict."""
